@@ -29,12 +29,16 @@ def _replay_state(st):
         base = ExponentialSmoothingTracker(alpha=ALPHA if exact else float(ALPHA)) if st["kind"] == "es" \
             else WelfordTracker()
         m = MultiValueTracker(base)
-        for u in st["upds"]:
-            m.update({k: conv(v) for k, v in (u or {}).items()})
-        with warnings.catch_warnings():
-            warnings.simplefilter("ignore")
-            got = m.get()
-            norm = m.get_normalized()
+        try:
+            for u in st["upds"]:
+                m.update({k: conv(v) for k, v in (u or {}).items()})
+            with warnings.catch_warnings():
+                warnings.simplefilter("ignore")
+                got = m.get()
+                norm = m.get_normalized()
+        except Exception as e:     # values of any real numeric type are accepted
+            problems.append(("raises." + name, "%s: %s" % (type(e).__name__, str(e)[:120]), "no exception"))
+            continue
         if m.N != st["n"]:
             problems.append(("count." + name, m.N, st["n"]))
         if set(got) != set(want_get) or set(norm) != set(want_norm):
